@@ -90,7 +90,7 @@ def run(tier, seed):
                        "it is decided by differential testing against two Coq artefacts: coq/Sem.v (definitional semantics, "
                        "whose rules are proved to be the documented ones: %d theorems) and the compiler/VM model. "
                        "%d sessions (%d statements) were run on the real code and evaluated in Coq on both. "
-                       "For the while-language over globals the property IS proved on the models (C01_statement_sessions_partial); "
+                       "For the while-language over globals with calls of the built-ins write/toa/aton/read and their I/O the property IS proved on the models (C01_statement_sessions_partial, C01_statement_sem_vs_vm); "
                        "%d further sessions of that fragment were run in value mode and file mode, and Coq evaluated the theorems' "
                        "premises on the parsed trees: %d of %d trees of those sessions and %d of %d trees of the general sessions "
                        "lie inside the proven fragment." %
